@@ -12,7 +12,7 @@
      pymap/parsing/primitives.py  LiteralString._prefix / write
      pymap/backend/dict/mailbox.py     Message.copy (content shared)
      pymap/backend/maildir/mailbox.py  Message.to_maildir / load_content,
-                              MailboxData.copy/move (stdlib mailbox as [ser])
+                              MailboxData.copy/move (raw bytes since abfc543)
 
    The content-type decision (stdlib email: maintype / subtype / boundary of
    the Content-Type header found in the header lines) is an oracle [ct]
@@ -80,26 +80,39 @@ Section Parse.
   Definition lines_of (c : content) : Z :=
     Z.max (Z.of_nat (length (c_hl c) + length (c_bl c)) - 1) 0.
 
-  (* BaseLoadedMessage._get_subpart for a non-empty section (numbers >= 1):
-     None = IndexError *)
-  Fixpoint get_subpart (c : content) (section : list nat) : option content :=
+  Definition is_rfc822 (c : content) : bool :=
+    match c_kind c with CtRfc822 => true | _ => false end.
+  Definition has_nested (c : content) : bool :=
+    match c_subs c with [] => false | _ => true end.
+
+  (* BaseLoadedMessage._get_subpart (part numbers of RFC 3501 6.4.5, as fixed):
+     [container] is what the next number is relative to — the part reached,
+     or, after a message/rfc822 part, the message it encloses; [cur] is the
+     part reached so far.  None = IndexError. *)
+  Definition next_container (s : content) : content :=
+    if is_rfc822 s && has_nested s
+    then match c_subs s with e :: _ => e | [] => s end
+    else s.
+
+  Fixpoint walk (container cur : content) (section : list nat) : option content :=
     match section with
-    | [] => Some c
+    | [] => Some cur
     | i :: rest =>
-      match c_subs c with
-      | [] => if Nat.eqb i 1 then get_subpart c rest else None
-      | subs => match i with
-                | O => None   (* not produced by the section parser *)
-                | S j => match nth_error subs j with
-                         | Some s => get_subpart s rest
-                         | None => None
-                         end
-                end
+      let step :=
+        if has_nested container && negb (is_rfc822 container)
+        then match i with
+             | O => None   (* not produced by the section parser *)
+             | S j => nth_error (c_subs container) j
+             end
+        else if Nat.eqb i 1 then Some container else None in
+      match step with
+      | Some s => walk (next_container s) s rest
+      | None => None
       end
     end.
 
-  Definition is_rfc822 (c : content) : bool :=
-    match c_kind c with CtRfc822 => true | _ => false end.
+  Definition get_subpart (c : content) (section : list nat) : option content :=
+    walk c c section.
 
   (* BODY[section] : get_body(section) *)
   Definition fetch_body (c : content) (section : list nat) : bytes :=
@@ -144,7 +157,37 @@ Section Parse.
 
   (* RFC822.SIZE : get_size() = len(content) *)
   Definition size_of (c : content) : nat := length (raw_of c).
+
+  (* RFC822, RFC822.HEADER, RFC822.TEXT are parsed into the sections [],
+     [HEADER], [TEXT] (FetchAttribute.parse) and served by the same code *)
+  Definition fetch_rfc822 (c : content) : bytes := fetch_body c [].
+  Definition fetch_rfc822_header (c : content) : bytes := fetch_header c [].
+  Definition fetch_rfc822_text (c : content) : bytes := fetch_text c [].
+
+  (* BINARY[section] / BINARY.SIZE[section] : get_body(section, binary=True).
+     [identity s] = the Content-Transfer-Encoding of s is absent, 7bit, 8bit
+     or binary (MessageDecoder.of -> _NoopDecoder), decided by stdlib email
+     and supplied as data; other encodings are not modelled (None). *)
+  Variable identity : content -> bool.
+
+  Definition fetch_binary (c : content) (section : list nat) : option bytes :=
+    match get_subpart c section with
+    | Some s =>
+      if identity s
+      then Some (match section with
+                 | [] => header_of s ++ body_of s
+                 | _ => body_of s
+                 end)
+      else None
+    | None => Some []
+    end.
+
+  Definition binary_size (c : content) (section : list nat) : option nat :=
+    option_map (@length N) (fetch_binary c section).
 End Parse.
+
+(* number of LF octets = number of text lines that are terminated *)
+Definition count_lf (b : bytes) : nat := length (filter (N.eqb LF) b).
 
 (* _get_partial: full[start:start+length] *)
 Definition get_partial (full : bytes) (partial : option (nat * nat)) : bytes :=
@@ -173,6 +216,9 @@ Section BodyStructure.
       let lines := Z.max (Z.of_nat (length hl + length bl) - 1) 0 in
       match k with
       | CtMulti _ =>
+        match subs with
+        | [] => Some (BsOther size)   (* no parsed sub-part: a basic body *)
+        | _ =>
         option_map BsMulti
           ((fix go (l : list content) : option (list bstruct) :=
               match l with
@@ -182,6 +228,7 @@ Section BodyStructure.
                           | _, _ => None
                           end
               end) subs)
+        end
       | CtRfc822 =>
         match subs with
         | s :: _ => option_map (BsMsg size lines) (body_structure s)
@@ -192,18 +239,6 @@ Section BodyStructure.
       end
     end.
 End BodyStructure.
-
-(* What is printed for a structure (parsing/response/fetch.py,
-   MultipartBodyStructure._parts): a multipart without any parsed sub-part is
-   shown with one empty text part (0 octets, 0 lines) *)
-Fixpoint bs_printed (b : bstruct) : bstruct :=
-  match b with
-  | BsMulti [] => BsMulti [BsText 0 0%Z]
-  | BsMulti subs => BsMulti (map bs_printed subs)
-  | BsMsg n l s => BsMsg n l (bs_printed s)
-  | BsText n l => BsText n l
-  | BsOther n => BsOther n
-  end.
 
 (* The octet count announced for a node of the structure, if any *)
 Definition bs_size (b : bstruct) : option nat :=
@@ -236,11 +271,14 @@ Fixpoint rfc_part (p : list nat) (b : bstruct) {struct b} : list (list nat * nat
   | BsOther n => [(p, n)]
   end.
 
-Definition rfc_parts (b : bstruct) : list (list nat * nat) :=
+(* the parts of a message (top-level or enclosed) whose numbers start with p *)
+Definition msg_parts (p : list nat) (b : bstruct) : list (list nat * nat) :=
   match b with
-  | BsMulti _ => rfc_part [] b
-  | _ => rfc_part [1] b
+  | BsMulti _ => rfc_part p b
+  | _ => rfc_part (p ++ [1]) b
   end.
+
+Definition rfc_parts (b : bstruct) : list (list nat * nat) := msg_parts [] b.
 
 (* ------------------------------------------------------------------ *)
 (* LiteralString: prefix "{" decimal(len) "}" CR LF, then the payload *)
@@ -249,6 +287,10 @@ Definition literal_prefix (n : N) : bytes :=
 
 Definition print_literal (p : bytes) : bytes :=
   literal_prefix (N.of_nat (length p)) ++ p.
+
+(* LiteralString(data, binary=True): "~{" n "}" CRLF payload (literal8) *)
+Definition print_literal8 (p : bytes) : bytes := 126%N :: print_literal p.
+
 
 (* the reader on the client side of a FETCH response: "{" number "}" CRLF and
    then exactly that many octets; the rest of the stream is returned *)
@@ -264,6 +306,12 @@ Definition read_literal (s : bytes) : option (bytes * bytes) :=
   | _ => None
   end.
 
+Definition read_literal8 (s : bytes) : option (bytes * bytes) :=
+  match s with
+  | 126%N :: s' => read_literal s'
+  | _ => None
+  end.
+
 (* ------------------------------------------------------------------ *)
 (* COPY / MOVE *)
 
@@ -274,18 +322,20 @@ Record dmsg : Type := DMsg { dm_uid : N; dm_data : bytes; dm_content : content }
 Definition dict_copy (m : dmsg) (new_uid : N) : dmsg :=
   DMsg new_uid (dm_data m) (dm_content m).
 
-(* maildir backend: the stored thing is a file; every passage through
-   stdlib mailbox.MaildirMessage / Maildir.add / get_message is the function
-   [ser] (measured by the harness, not modelled) *)
+(* maildir backend (as of abfc543): the literal is written byte for byte
+   (RawMaildirMessage, Maildir._dump_message), COPY writes the bytes read
+   with get_bytes, MOVE renames the file, load_content parses get_bytes(key).
+   stdlib mailbox.Maildir.get_bytes replaces os.linesep by LF when it reads:
+   the function [rd], the identity where os.linesep is LF. *)
 Section Maildir.
-  Variable ser : bytes -> bytes.
+  Variable rd : bytes -> bytes.
 
-  (* APPEND: Maildir.add(MaildirMessage(literal)) -> file bytes *)
-  Definition md_append (lit : bytes) : bytes := ser lit.
-  (* load_content: bytes(maildir.get_message(key)) *)
-  Definition md_load (file : bytes) : bytes := ser file.
-  (* COPY: dest.add(MaildirMessage(maildir.get_message(key))) *)
-  Definition md_copy (file : bytes) : bytes := ser (ser file).
+  (* APPEND: Maildir.add(RawMaildirMessage(literal)) -> file bytes *)
+  Definition md_append (lit : bytes) : bytes := lit.
+  (* load_content: MessageContent.parse(maildir.get_bytes(key)) *)
+  Definition md_load (file : bytes) : bytes := rd file.
+  (* COPY: dest.add(get_raw_message(key)) *)
+  Definition md_copy (file : bytes) : bytes := rd file.
   (* MOVE: the file is renamed *)
   Definition md_move (file : bytes) : bytes := file.
 End Maildir.
